@@ -163,3 +163,50 @@ func SameStrings(a, b []string) bool {
 	}
 	return true
 }
+
+// FreshFrom builds a fresh replica that receives everything `from` holds by one
+// of the delivery routes of the property: 0 = manual sync / announced heads,
+// 1 = load from disk (a new store over from's cache and blocks, real Load),
+// 2 = snapshot (from saves a snapshot, the new store loads it).
+func FreshFrom(ctor Ctor, from *Replica, route int, save func(context.Context, iface.Store) error) *Replica {
+	switch route {
+	case 0:
+		r := Open(ctor, "r", from.Env.Blocks, from.Store.AccessController(), false, nil)
+		if r != nil {
+			r.SyncFrom(from)
+		}
+		return r
+	case 1:
+		r := Open(ctor, from.Name, from.Env.Blocks, from.Store.AccessController(), false, from.Env.Cache)
+		if r == nil {
+			return nil
+		}
+		if err := r.Store.Load(context.Background(), -1); err != nil {
+			vstub.Fail("Load from disk failed")
+			return nil
+		}
+		vstub.WaitIdle()
+		return r
+	default:
+		if err := save(context.Background(), from.Store); err != nil {
+			vstub.Fail("SaveSnapshot failed")
+			return nil
+		}
+		env := NewEnv(from.Name, 1, "db", from.Env.Blocks, nil)
+		env.Cache = from.Env.Cache
+		env.IPFS.Files = from.Env.IPFS.Files
+		opts := env.Options(false)
+		opts.AccessController = from.Store.AccessController()
+		st, err := ctor(env.IPFS, env.Identity, env.Addr, opts)
+		if err != nil {
+			vstub.Fail("store constructor failed")
+			return nil
+		}
+		if err := st.LoadFromSnapshot(context.Background()); err != nil {
+			vstub.Fail("LoadFromSnapshot failed")
+			return nil
+		}
+		vstub.WaitIdle()
+		return &Replica{Name: from.Name, Store: st, Env: env}
+	}
+}
